@@ -8,16 +8,19 @@ THEOREMS = ["C08_code_conforms", "C08_process_order", "C08_creation_is_arrival_o
 
 
 def build(rng, i):
-    buf = rng.choice([1, 2, 3, 128])
+    buf = rng.choice([1, 2, 3, 128]) if i % 4 != 1 else rng.choice([1, 2])
     sp = t3.Spec(maxtasks=rng.choice([2, 4, 8]), bufsize=buf)
-    L = rng.randint(2, 7)
+    L = rng.randint(2, 7) if i % 4 != 1 else rng.randint(5, 8)
     paths = ["s%02d.txt" % j for j in range(L)]
     for p in paths:
         sp.files[p] = p + "\n"
     s = sp.src("src", paths)
     # durations: a pseudo-random function of the task key, or strictly decreasing so that later tasks finish first
     salt = rng.randint(0, 999)
-    if i % 2 == 0:
+    if i % 4 == 1:
+        # quick tasks, one slow one in the middle: a burst of sends, a pause, then more sends
+        sleep = 'sleep 0.0$(( $(echo {i:a|basename} | tr -dc 0-9 | sed "s/^0*//;s/^$/0/") == %d ? 60 : 1 ))' % rng.randint(2, 4)
+    elif i % 2 == 0:
         sleep = 'sleep 0.0$(( ( $(echo "%d {i:a}" | cksum | cut -d" " -f1) %% 9 ) + 1 ))' % salt
     else:
         sleep = 'sleep 0.$(( 30 - 4 * $(echo {i:a|basename} | tr -dc 0-9 | sed "s/^0*//;s/^$/0/" | cut -c1-1) ))'
